@@ -182,10 +182,68 @@ func (s c05Spec) build() (ociregistry.Interface, func()) {
 	}
 }
 
+// c05Held: `ls held <what> <n>`: a listing of n items is obtained from an in-memory registry, then new
+// names are created (one sorting before everything, one in the middle), then the listing is consumed
+// (twice). Every item that was there all along is delivered exactly once, in ascending order, both
+// times; the new names may or may not be there.
+func c05Held(what string, n int) string {
+	ctx := context.Background()
+	var items []string
+	for i := 0; i < n; i++ {
+		items = append(items, fmt.Sprintf("item%02d", i))
+	}
+	var names []string
+	for _, it := range items {
+		if what == "repos" {
+			names = append(names, "lib/"+it)
+		} else {
+			names = append(names, it)
+		}
+	}
+	reg := c05Populate(what, names, "").(*ocimem.Registry)
+	blob := []byte("b")
+	desc := ociregistry.Descriptor{MediaType: "application/octet-stream", Digest: ociregistry.Digest(sha256Digest(blob)), Size: 1}
+	var seq ociregistry.Seq[string]
+	if what == "repos" {
+		seq = reg.Repositories(ctx, "")
+		for _, nw := range []string{"lib/", "lib/item00a", "lib/item" + fmt.Sprintf("%02d", n/2) + "-x", "backup/z"} {
+			reg.PushBlob(ctx, strings.TrimSuffix(nw, "/")+"0new", desc, bytes.NewReader(blob))
+		}
+	} else {
+		seq = reg.Tags(ctx, c05Repo, "")
+		for _, nw := range []string{"a-first", "item00a", fmt.Sprintf("item%02d-x", n/2)} {
+			reg.PushManifest(ctx, c05Repo, nw, []byte("manifest new"), mtOpaque)
+		}
+	}
+	for pass := 0; pass < 2; pass++ {
+		got, err := ociregistry.All(seq)
+		if err != nil {
+			return "held error"
+		}
+		seen := map[string]int{}
+		for i, g := range got {
+			seen[g]++
+			if i > 0 && got[i-1] >= g {
+				return fmt.Sprintf("held pass %d not ascending: %q then %q", pass, got[i-1], g)
+			}
+		}
+		for _, nm := range names {
+			if seen[nm] != 1 {
+				return fmt.Sprintf("held pass %d: %q (there all along) delivered %d times", pass, nm, seen[nm])
+			}
+		}
+	}
+	return "held ok"
+}
+
 func (*c05) Impl(c Case) []string {
 	out := make([]string, len(c.Lines))
 	for i, l := range c.Lines {
 		out[i] = guard(func() string {
+			if t := strings.Split(l, " "); len(t) == 4 && t[0] == "ls" && t[1] == "held" {
+				n, _ := strconv.Atoi(t[3])
+				return c05Held(t[2], n)
+			}
 			s, ok := parseC05(l)
 			if !ok {
 				return "bad-op"
@@ -351,6 +409,9 @@ func (*c05) Gen(rng *RNG, tier string) []Case {
 	stacks := []string{"mem", "wire", "wire+wire", "debug", "select", "sub", "unify", "wire+debug", "debug+wire", "select+wire", "wire+select",
 		"sub+wire", "wire+sub", "unify+wire", "sub+select", "select+sub", "unify+select+wire", "sub+wire+wire", "unify+sub",
 		"unifyerr", "unifyerr+debug", "unifyerr+select"}
+	for _, n := range []int{1, 2, 5, 8, 9, 16, 33} {
+		cases = append(cases, Case{Tag: "held", Lines: []string{fmt.Sprintf("ls held repos %d", n), fmt.Sprintf("ls held tags %d", n)}})
+	}
 	n := 700
 	if tier == "thorough" {
 		n = 12000
@@ -418,6 +479,12 @@ func (*c05) Oracle(c Case, impl []string) []Failure {
 	for i, l := range c.Lines {
 		if i >= len(impl) {
 			break
+		}
+		if t := strings.Split(l, " "); len(t) == 4 && t[1] == "held" {
+			if impl[i] != "held ok" {
+				fs = append(fs, Failure{Class: "list-held", Oracle: "listing_of_what_was_there_all_along", Index: i, Expected: "held ok", Observed: impl[i]})
+			}
+			continue
 		}
 		s, ok := parseC05(l)
 		if !ok {
